@@ -293,8 +293,8 @@ fn meshes(rng: &mut Rng, thorough: bool) {
 
 pub fn run(rng: &mut Rng, n: usize, thorough: bool) {
     for _ in 0..n {
-        curves2(rng);
-        curves3(rng);
-        meshes(rng, thorough);
+        case("closest.case", "c02.library_call_panics", || curves2(rng));
+        case("closest.case", "c02.library_call_panics", || curves3(rng));
+        case("closest.case", "c02.library_call_panics", || meshes(rng, thorough));
     }
 }
